@@ -33,7 +33,7 @@ func (p probeSched) Next(t time.Time) time.Time {
 
 func TestCronCallbackPoints(t *testing.T) {
 	sec := vk.Sec("CronCallbackPoints")
-	for _, inject := range []string{"remove-other", "stop", "remove-self", "entries"} {
+	for _, inject := range []string{"remove-other", "stop", "remove-self", "entries", "stop+remove-other", "entries+remove-other"} {
 		for _, others := range []int{1, 3} {
 			for nth := 2; nth <= 4; nth++ { // (the first Next call of an entry is the one made when the scheduler starts)
 				name := fmt.Sprintf("cron.callbackpoint{inject=%s otherEntries=%d atNextCall=%d}", inject, others, nth)
@@ -75,6 +75,22 @@ func runCronCallbackPoint(t *testing.T, name, inject string, others, nth int) er
 			go func() {
 				defer iwg.Done()
 				switch inject {
+				case "stop+remove-other", "entries+remove-other":
+					// a first caller (Stop or Entries) is already waiting for the scheduler when Remove is called:
+					// whatever the first caller has changed by then, Remove's promise is the same
+					iwg.Add(1)
+					go func() {
+						defer iwg.Done()
+						if inject == "stop+remove-other" {
+							cr.Stop()
+						} else {
+							_ = cr.Entries()
+						}
+					}()
+					for i := 0; i < 200; i++ {
+						runtime.Gosched()
+					}
+					cr.Remove(ids[victim])
 				case "remove-other":
 					cr.Remove(ids[victim])
 				case "remove-self":
@@ -122,7 +138,7 @@ func runCronCallbackPoint(t *testing.T, name, inject string, others, nth int) er
 		defer mu.Unlock()
 		if snapshot[-1] == 1 {
 			switch inject {
-			case "remove-other":
+			case "remove-other", "stop+remove-other", "entries+remove-other":
 				if starts[victim] > snapshot[victim] {
 					errs.Failf("Remove(entry %d) had returned (the entry had been started %d times by then), yet the scheduler started it again afterwards (%d starts in the end)", victim, snapshot[victim], starts[victim])
 				}
